@@ -99,3 +99,35 @@ pub fn pick_idx(i: u16, len: usize) -> usize {
         ((i as usize) * len) >> 16
     }
 }
+
+/// Flat container for a small file tree: u32 count, then (u16 path length, path, u32 length, bytes)*.
+pub fn pack_files(files: &[(String, Vec<u8>)]) -> Vec<u8> {
+    let mut v = Vec::new();
+    v.extend_from_slice(&(files.len() as u32).to_le_bytes());
+    for (p, b) in files {
+        v.extend_from_slice(&(p.len() as u16).to_le_bytes());
+        v.extend_from_slice(p.as_bytes());
+        v.extend_from_slice(&(b.len() as u32).to_le_bytes());
+        v.extend_from_slice(b);
+    }
+    v
+}
+
+pub fn unpack_files(v: &[u8]) -> Option<Vec<(String, Vec<u8>)>> {
+    let mut at = 0usize;
+    let n = u32::from_le_bytes(v.get(0..4)?.try_into().ok()?) as usize;
+    at += 4;
+    let mut out = Vec::with_capacity(n.min(1024));
+    for _ in 0..n {
+        let pl = u16::from_le_bytes(v.get(at..at + 2)?.try_into().ok()?) as usize;
+        at += 2;
+        let p = String::from_utf8_lossy(v.get(at..at + pl)?).to_string();
+        at += pl;
+        let bl = u32::from_le_bytes(v.get(at..at + 4)?.try_into().ok()?) as usize;
+        at += 4;
+        let b = v.get(at..at + bl)?.to_vec();
+        at += bl;
+        out.push((p, b));
+    }
+    Some(out)
+}
